@@ -2,6 +2,7 @@ package props
 
 import (
 	"fmt"
+	"time"
 	"strings"
 
 	"github.com/jotaen/klog/klog"
@@ -72,7 +73,18 @@ func runC16(e *core.Env) {
 			y := int(i - 2 - c16Times)
 			_ = years
 			e.Begin(i, []byte(fmt.Sprintf("dates of year %04d", y)))
-			e.Evals(c16Dates(e, y))
+			n := c16Dates(e, y)
+			if y >= 2008 && y <= 2026 {
+				saved := time.Local
+				for _, zn := range []string{"America/Santiago", "America/Havana", "Pacific/Apia", "America/Sao_Paulo", "Atlantic/Azores", "Africa/Cairo"} {
+					if loc, err := time.LoadLocation(zn); err == nil {
+						time.Local = loc
+						n += c16Dates(e, y)
+					}
+				}
+				time.Local = saved
+			}
+			e.Evals(n)
 			e.End(i)
 		}
 	}
